@@ -11,16 +11,14 @@ import (
 	"verif/internal/core"
 )
 
-// sanitise mirrors what Package.uniqueName concatenates: path components,
-// cleaned by moq's replacer and lower-cased, last component first. This is
-// model input (predictions and finding shapes), never a verdict.
-var sanRepl = strings.NewReplacer("go-", "", "-go", "", "-", "", "_", "", ".", "", "@", "", "+", "", "~", "")
-
-func sanitise(path string) []string {
+// comps: the path's components as characters, last component first. The
+// sanitising replacer and lower-casing of uniqueName are part of the model
+// (spec/Chars.tla: Strip, SanComp), not of the harness.
+func comps(path string) [][]string {
 	pp := strings.Split(path, "/")
-	out := make([]string, len(pp))
+	out := make([][]string, len(pp))
 	for i := range pp {
-		out[i] = strings.ToLower(sanRepl.Replace(pp[len(pp)-1-i]))
+		out[i] = cs(pp[len(pp)-1-i])
 	}
 	return out
 }
@@ -28,15 +26,14 @@ func sanitise(path string) []string {
 type predPkg struct {
 	Path  string   `json:"path"`
 	Name  string   `json:"name"`
-	Alias string   `json:"alias"`
-	San   []string `json:"san"`
+	Alias string     `json:"alias"`
+	Comps [][]string `json:"comps"`
 }
 
 type predVar struct {
 	NameCs []string  `json:"nameCs"`
 	T      T         `json:"t"`
 	Suffix string    `json:"suffix"`
-	Pkgs   []predPkg `json:"pkgs"`
 }
 
 type predCase struct {
@@ -44,6 +41,8 @@ type predCase struct {
 	MoqPath string      `json:"moqPath"`
 	Scopes  [][]predVar `json:"scopes"`
 	Tail    []predPkg   `json:"tail"`
+	Src     predPkg     `json:"src"`
+	Pkgs    []predPkg   `json:"pkgs"` // the case's package table; types refer to it by index
 	scopeOf []string    // "<iface>.<method>" per scope ("<iface>.[tparams]")
 	nParams []int       // number of parameters (record fields) per scope, -1 for type-parameter scopes
 	scopePkgs [][]string // import paths the scope's variable types mention
@@ -56,6 +55,7 @@ type Prediction struct {
 	Dup     bool         `json:"dup"`
 	Crash   bool         `json:"crash"`
 	NameDup bool         `json:"nameDup"`
+	Late    bool         `json:"late"`
 	NFinals int          `json:"nfinals"`
 	Finals  [][][]string `json:"finals"` // set of registries, each a set of [path, qualifier]
 	Names   [][][]string `json:"names"`  // per scope: set of possible final name lists
@@ -103,20 +103,17 @@ func buildPred(c *Case) *predCase {
 	}
 	pk := func(i int) predPkg {
 		if i == -1 {
-			return predPkg{Path: c.Src.Path, Name: c.Src.Name, Alias: aliases[c.Src.Path], San: sanitise(c.Src.Path)}
+			return predPkg{Path: c.Src.Path, Name: c.Src.Name, Alias: aliases[c.Src.Path], Comps: comps(c.Src.Path)}
 		}
 		p := c.Src.Pkgs[i]
-		return predPkg{Path: p.Path, Name: p.Name, Alias: aliases[p.Path], San: sanitise(p.Path)}
+		return predPkg{Path: p.Path, Name: p.Name, Alias: aliases[p.Path], Comps: comps(p.Path)}
 	}
-	pc := &predCase{Case: c.ID, MoqPath: moqPathOf(c), Scopes: [][]predVar{}, Tail: []predPkg{}}
+	pc := &predCase{Case: c.ID, MoqPath: moqPathOf(c), Scopes: [][]predVar{}, Tail: []predPkg{}, Src: pk(-1), Pkgs: []predPkg{}}
+	for i := range c.Src.Pkgs {
+		pc.Pkgs = append(pc.Pkgs, pk(i))
+	}
 	mkVar := func(name string, t T, suffix string) predVar {
-		var idx []int
-		walk(t, &idx)
-		v := predVar{NameCs: cs(name), T: t, Suffix: suffix, Pkgs: []predPkg{}}
-		for _, i := range idx {
-			v.Pkgs = append(v.Pkgs, pk(i))
-		}
-		return v
+		return predVar{NameCs: cs(name), T: t, Suffix: suffix}
 	}
 	anyMethod := false
 	for _, it := range requested(c) {
@@ -152,20 +149,11 @@ func buildPred(c *Case) *predCase {
 			pc.Scopes = append(pc.Scopes, sc)
 			pc.scopeOf = append(pc.scopeOf, it.Name+"."+m.Name)
 			pc.nParams = append(pc.nParams, len(m.Params))
-			var used []string
-			for _, v := range sc {
-				for _, k := range v.Pkgs {
-					used = append(used, k.Path)
-				}
-			}
-			for len(pc.scopePkgs) < len(pc.Scopes)-1 {
-				pc.scopePkgs = append(pc.scopePkgs, nil)
-			}
-			pc.scopePkgs = append(pc.scopePkgs, used)
+
 		}
 	}
 	if anyMethod {
-		pc.Tail = append(pc.Tail, predPkg{Path: "sync", Name: "sync", San: sanitise("sync")})
+		pc.Tail = append(pc.Tail, predPkg{Path: "sync", Name: "sync", Comps: comps("sync")})
 	}
 	if c.Cfg.Dest != "implicit" && c.Cfg.Dest != "explicitSame" && !c.Cfg.SkipEnsure {
 		pc.Tail = append(pc.Tail, pk(-1))
@@ -215,30 +203,7 @@ func Predict(sc *core.Scratch, ev *core.Evidence, tag string, cases []*Case) (ma
 		if json.Unmarshal([]byte(s), &p) == nil {
 			p.ScopeOf = scopeOf[p.Case]
 			p.NParams = nParams[p.Case]
-			// late alias capture: in some outcome a variable is finally called like the
-			// qualifier finally given to a package its own method refers to
-			for _, reg := range p.Finals {
-				q := map[string]string{}
-				for _, pq := range reg {
-					if len(pq) == 2 {
-						q[pq[0]] = pq[1]
-					}
-				}
-				for si, alts := range p.Names {
-					if si >= len(scopePkgs[p.Case]) {
-						continue
-					}
-					for _, names := range alts {
-						for _, n := range names {
-							for _, path := range scopePkgs[p.Case][si] {
-								if q[path] == n {
-									p.LateCapture = true
-								}
-							}
-						}
-					}
-				}
-			}
+			p.LateCapture = p.Late
 			for si, alts := range p.Names {
 				if si >= len(p.NParams) || p.NParams[si] < 0 {
 					continue
